@@ -299,15 +299,27 @@ class SimpleJSONRPCDispatcher(SimpleXMLRPCDispatcher, object):
         # Get the response dictionary
         try:
             response = self._unmarshaled_dispatch(request, dispatch_method)
-            if response is not None:
-                # Compute the string representation of the dictionary/list
-                return jsonrpclib.jdumps(response, self.encoding)
-            else:
-                # No result (notification)
-                return ""
         except NoMulticallResult:
             # Return an empty string (jsonrpclib internal behaviour)
             return ""
+
+        if response is None:
+            # No result (notification)
+            return ""
+
+        try:
+            # Compute the string representation of the dictionary/list
+            return jsonrpclib.jdumps(response, self.encoding)
+        except Exception as ex:
+            # The response can't be serialized (e.g. a request ID loaded as
+            # a bean): answer with an internal error instead of raising
+            fault = Fault(
+                -32603,
+                "{0}:{1}".format(type(ex).__name__, ex),
+                config=self.json_config,
+            )
+            _logger.error("Error serializing JSON-RPC result: %s", fault)
+            return fault.response()
 
     def _marshaled_single_dispatch(self, request, dispatch_method=None):
         """
